@@ -445,12 +445,63 @@ func runCodec(o opts) error {
 			for i, x := range strs {
 				ss[i] = hx.S(x)
 			}
+			// ... and what the VM's own decoder makes of those bytes
+			var di Instr
+			var drest []byte
+			var derr error
+			dpk, _ := hx.Recover(func() { di, drest, derr = decodeOneVm(got) })
+			dobs := ""
+			switch {
+			case dpk:
+				dobs = hx.Panic()
+			case derr != nil:
+				dobs = hx.Err("EGen")
+			default:
+				dobs = hx.Ok(fmt.Sprintf("(%s, %s)", di.Term(), hx.B(drest)))
+			}
 			w.Add(hx.Case{Kind: "newline-forms", Key: fmt.Sprintf("nlf-%d-%x-%x-%x", ins.Op, strs, ba, mode),
-				Term: fmt.Sprintf("CNewLine %d %s %s %s %s", ins.Op, hx.List(ss), optB(ba), optB(mode), hx.B(got)),
+				Term: fmt.Sprintf("CNewLine %d %s %s %s %s %s", ins.Op, hx.List(ss), optB(ba), optB(mode), hx.B(got), dobs),
 				Desc: map[string]interface{}{"instr": ins.Term(), "byteargs": fmt.Sprintf("%x", ba)}})
 		}
 	}
+	// the assembler on the source line of a numeric instruction (decimal literal of any width)
+	addAsmLine := func(ins Instr) {
+		var line string
+		switch ins.Op {
+		case vm.LOAD:
+			line = fmt.Sprintf("LOAD %s %d\n", ins.S1, ins.N)
+		case vm.CATCH:
+			line = fmt.Sprintf("CATCH %s %d %d\n", ins.S1, ins.N, modeByte(ins.M)[0])
+		case vm.CROAK:
+			line = fmt.Sprintf("CROAK %d %d\n", ins.N, modeByte(ins.M)[0])
+		default:
+			return
+		}
+		for _, c := range ins.S1 { // the assembler's symbol alphabet only
+			if !(c == '_' || c >= 'a' && c <= 'z' || c >= '0' && c <= '9') {
+				return
+			}
+		}
+		if len(ins.S1) > 0 && ins.S1[0] >= '0' && ins.S1[0] <= '9' {
+			return
+		}
+		buf := bytes.NewBuffer(nil)
+		var err error
+		pk, _ := hx.Recover(func() { _, err = asm.Parse(line, buf) })
+		w.Add(hx.Case{Kind: "asm-line", Key: "asmline-" + line,
+			Term: fmt.Sprintf("CAsmLine %s %s", ins.Term(), resBytes(buf.Bytes(), err, pk)),
+			Desc: map[string]interface{}{"line": line}})
+	}
 	if o.prop == "C14" {
+		for _, n := range numBoundaries {
+			addAsmLine(Instr{Op: vm.LOAD, S1: []byte("foo"), N: n})
+			addAsmLine(Instr{Op: vm.CROAK, N: n, M: n%2 == 0})
+			addNewLineForms(Instr{Op: vm.LOAD, S1: []byte("foo"), N: n})
+		}
+		for _, n := range []uint32{999999999, 1000000000, 1000000001, 4294967295, 2147483648, 1234567890} {
+			addAsmLine(Instr{Op: vm.LOAD, S1: []byte("foo"), N: n})
+			addAsmLine(Instr{Op: vm.CATCH, S1: []byte("bar"), N: n, M: true})
+		}
 		for _, z := range []Instr{{Op: vm.LOAD, S1: []byte("foo")}, {Op: vm.CATCH, S1: []byte("foo"), M: true}, {Op: vm.CROAK}, {Op: vm.CROAK, M: true}, {Op: vm.LOAD, S1: []byte("x"), N: 37}} {
 			addNewLineForms(z)
 		}
@@ -488,6 +539,7 @@ func runCodec(o opts) error {
 				enc = append(enc, one...)
 				if c%3 == 1 {
 					addNewLineForms(ins)
+					addAsmLine(ins)
 				}
 				if c%3 == 0 {
 					var ab []byte
